@@ -72,6 +72,11 @@ def draw_system(rng, seed: int, prop: str, *, families=("single",) * 6 + ("cross
         fits["F2"] = {"X": "D2", "w": None}
         new = {"F0": ["N0", "N1"], "F1": ["N0", "N1"], "F2": ["N2"]}
         bad = {"F0": ["N2"], "F1": ["N2"], "F2": ["N0"]}
+        if not lazy and gen.n_features_total(d0) >= 4 and not d0.get("nan_features"):
+            # same layout, but an entirely missing feature the training data did not have (a malformed call)
+            descs["NN0"] = dict(copy.deepcopy(descs["N0"]), nan_features=1)
+            bad["F0"].append("NN0")
+            bad["F1"].append("NN0")
         # parameters must be valid for every data set of the pool: draw against the smallest
         small = min((descs["D0"], descs["D1"], descs["D2"]), key=models._rank)
         params = models.draw_single_params(rng, spec, small, lazy=lazy if lazy else None)
